@@ -170,7 +170,55 @@ def clause1_value(ctx, P):
     ctx.ob("C14.1 R-PAIR", conv, "one-shot", zero >= 2 and not nonzero, "the timer is not one-shot (it_interval must be zero)")
     for c in ts.calls("timerfd_settime"):
         ctx.ob("C14.1 R-PAIR", ts, "relative", P.const_int(c.a[1]) == 0, "timer not armed relative to now")
-    ctx.floor("C14.1 R-PAIR", 8)
+    # the armed value is the whole deadline: it_value = (ns / 1e9, ns mod 1e9) computed at 64 bits all the way - no narrower
+    # integer in between (4294967296 s and more are legal timeouts; cut to 32 bits they fire after the remainder)
+    NS = 1000000000
+    split = {}
+    for g in P.own_functions():
+        if g.base != "timer_linux.c":
+            continue
+        for i in g.all_insts():
+            if i.op != "store":
+                continue
+            t = P.term(g, i.a[1])
+            if t[0] == "field" and t[3] in ("tv_sec", "tv_nsec") and Q.mentions(t, lambda x: x[0] == "field" and x[3] == "it_value"):
+                v = P.term(g, i.a[0])
+                if v[0] == "const":
+                    continue
+                src = None
+                if t[3] == "tv_sec":
+                    okv = v[0] == "op" and v[1] == "udiv" and v[2][1] == ("const", NS)
+                    src = v[2][0] if okv else None
+                else:
+                    okv = (v[0] == "op" and v[1] == "urem" and v[2][1] == ("const", NS)) or \
+                          (v[0] == "op" and v[1] == "sub" and v[2][1] == ("op", "mul", (("op", "udiv", (v[2][0], ("const", NS))), ("const", NS))))
+                    src = v[2][0] if okv else None
+                # narrowing anywhere on the way from the deadline to the member
+                narrow = None
+                st = [i.a[0]]
+                seen_ = set()
+                while st:
+                    o = st.pop()
+                    if not isinstance(o, int) or o < g.nparams or o in seen_:
+                        continue
+                    seen_.add(o)
+                    d = g.insts[o]
+                    if d.op == "trunc":
+                        narrow = d
+                    if d.op in ("trunc", "zext", "sext", "udiv", "urem", "sub", "mul", "add"):
+                        st.extend(d.a)
+                split[t[3]] = (okv, src, narrow, g, i)
+    oks = len(split) == 2 and all(x[0] and x[2] is None for x in split.values()) and split["tv_sec"][1] == split["tv_nsec"][1]
+    why = ""
+    if not oks:
+        for k_, x in split.items():
+            if x[2] is not None:
+                why = "%s goes through a %s integer at %s" % (k_, x[2].ty, x[2].loc)
+            elif not x[0]:
+                why = why or "%s is not computed from the deadline by /, mod 1e9" % k_
+    ctx.ob("C14.1 R-PAIR", ts, "armed-value-is-the-whole-deadline", oks,
+           "the timer is not armed with (deadline / 1e9, deadline mod 1e9) at full width (%s): a long timeout fires early" % why)
+    ctx.floor("C14.1 R-PAIR", 9)
     ctx.floor("C14.1 R-GATE", 4)
 
 
@@ -203,6 +251,25 @@ def clause2_outcome(ctx, P, cg):
     ctx.ob("C14.2 R-ORDER", th, "cancelled-is-noop", bad is None and n > 0,
            "the expiry handler touches the entry when invoked as cancelled (the canceller completes it)",
            witness=bad.witness() if bad else None)
+
+
+def clause2b_cancel_contract(ctx, P, cg):
+    """the canceller completes the request itself (it answers with the reply, or with the shutdown error, and frees the entry): the
+    expiry handler, when it is called from cancel(), is told so - the literal 'true' - whatever state the timer was in.  A cancel
+    that reports 'not cancelled' for an already expired, not yet dispatched timer makes the handler answer and free the entry
+    under the canceller's feet (second answer, use after free)"""
+    tc = P.fn("timer_linux.c:timer_cancel")
+    hk = ("struct.cjet_timer", P.field_index("struct.cjet_timer", "handler"))
+    n = 0
+    bad = None
+    for i in tc.all_insts():
+        if i.op == "call" and not i.callee and cg.icall_field(tc, i) == hk:
+            n += 1
+            if P.const_int(i.a[1]) not in (1, True):
+                bad = i
+    ctx.ob("C14.2 R-PAIR", tc, "cancel-reports-cancelled", bad is None and n >= 1,
+           "timer_cancel() invokes the handler with %s instead of the constant true (%s): for an expired but not yet dispatched timer "
+           "the expiry path runs inside cancel" % (fmt_term(P.term(tc, bad.a[1]))[:60] if bad else "?", bad.loc if bad else "no handler call found"))
 
 
 def clause3_batch(ctx, P, cg):
@@ -344,4 +411,5 @@ def run(ctx):
         P, cg = cfg.P, cfg.cg
         clause1_value(ctx, P)
         clause2_outcome(ctx, P, cg)
+        clause2b_cancel_contract(ctx, P, cg)
         clause3_batch(ctx, P, cg)
